@@ -13,6 +13,9 @@ def run_suite(name, suite, seed, extra=None):
 
 
 def load_key(e, code, names):
+    if e["ev"] == "rawload":
+        w = e["words"]
+        return "rawload:code%d:%s:%s/%s/%s" % (code, e.get("tag", ""), w["st"], w.get("out_st"), w.get("re_st"))
     ops = [i["op"] for i in e["insts"]]
     d, w = e["direct"], e["words"]
     sig = "%s/%s:%s/%s" % (d["st"], w["st"], d.get("e", ""), w.get("e", ""))
@@ -37,8 +40,8 @@ def validate(rep, trace, name, mask):
                 e = events[idx - 1]
                 rep.violation(load_key(e, code & mask, names), {
                     "component": "loader",
-                    "input": {"insts": e["insts"], "in_version": e["in_version"], "in_bound": e["in_bound"], "layout": e["layout"]},
-                    "observed": {"direct": {k: e["direct"][k] for k in ("st", "e", "at")}, "words": {k: e["words"].get(k) for k in ("st", "e", "out_st", "re_st")}},
+                    "input": {"insts": e.get("insts"), "in_words": e.get("in_words") if e["ev"] == "rawload" else None, "in_version": e["in_version"], "in_bound": e["in_bound"], "layout": e["layout"]},
+                    "observed": {"direct": {k: e["direct"][k] for k in ("st", "e", "at")} if "direct" in e else None, "words": {k: e["words"].get(k) for k in ("st", "e", "out_st", "re_st")}},
                     "expected": "an outcome of Loader!Load over SpecFacts!LoaderClass; for accepted inputs the round trip of LoaderTrace!RoundTripOK",
                     "spec_ref": "LoaderTrace!Code"})
                 counted += 1
@@ -61,6 +64,10 @@ def tags(trace):
         for l in f:
             e = json.loads(l)
             c[e["tag"]] = c.get(e["tag"], 0) + 1
+            if "direct" not in e:
+                k = "raw:" + e["words"]["st"]
+                outcomes[k] = outcomes.get(k, 0) + 1
+                continue
             k = e["direct"]["st"] + (":" + e["direct"]["e"] if e["direct"]["st"] == "err" else "")
             outcomes[k] = outcomes.get(k, 0) + 1
     return c, outcomes
@@ -90,10 +97,11 @@ def loader_check(prop, tier, seed, replay_path, mask, model_cfg, suites, require
             outc[k] = outc.get(k, 0) + v
         with open(trace) as f:
             e = json.loads(f.readline())
-            samples.append({"insts": e["insts"][:4], "direct": {k: e["direct"][k] for k in ("st", "e", "at")}, "tag": e["tag"]})
+            samples.append({"insts": e["insts"][:4], "direct": {k: e["direct"][k] for k in ("st", "e", "at")}, "tag": e["tag"]} if "insts" in e else {"tag": e["tag"], "in_words": e["in_words"][:12]})
     missing = [r for r in required_outcomes if outc.get(r, 0) == 0]
     if missing:
-        raise ToolError("vacuous run: loader outcomes never exercised: %s" % missing)
+        if not rep.new:
+            raise ToolError("vacuous run: loader outcomes never exercised: %s" % missing)
     rc = rep.finish()
     write_evidence(prop, tier, seed, {
         "states": mc["states"], "transitions": mc["transitions"], "traces_validated_against_impl": total, "samples": samples[:3],
